@@ -21,7 +21,10 @@ RULE = (
     "equals the session with arrival <= t < departure; non-zero recorded rates only inside "
     "connection intervals, and in the always-max family with oversized batteries non-zero in "
     "every connected period. A step bound of last+1 periods turns non-termination into a "
-    "violation. Non-trivial = two sessions share a station or two events share a period."
+    "violation. The same scenario is also run on a simulator dumped to JSON and loaded before its "
+    "first period (end state, events, order, identical rates), and the EventQueue object may have "
+    "been queried for a late period before it was filled. Non-trivial = two sessions share a "
+    "station or two events share a period."
 )
 ASSUMPTIONS = [
     "continuous EVSEs have min_rate 0 (a station that rejects the 0 A pilot cannot idle)",
@@ -108,12 +111,45 @@ def prop(spec, rec):
                 require(False, "current_whenever_connected", lambda: "always-max family: station %s connected in period %d but rate is 0" % (sid, t))
 
     labels = sc.scenario_labels(spec)
+    # the same scenario on a simulator that went through a JSON dump / load before its first period
+    if spec.get("also_json", True):
+        check_json_built(spec, m, R, labels)
+    if spec.get("queue_preused"):
+        labels.add("queue_object_used_before")
     if exact:
         labels.add("exact_family")
     if charged:
         labels.add("charged")
     nt = bool(labels & {"two_sessions_one_station", "simultaneous_events"})
     rec.case(spec, labels, nt)
+
+
+def check_json_built(spec, m, R, labels):
+    import warnings
+
+    from acnportal.acnsim import Simulator
+
+    fresh = sc.build_sim(spec)
+    with warnings.catch_warnings():
+        warnings.simplefilter("ignore")
+        sim = Simulator.from_json(fresh.sim.to_json())
+    sched = sc.make_scheduler(spec)
+    sim.update_scheduler(sched)
+    h = sc.Handle(spec, sim, sim.network, {}, sched)
+    sc.run_sim(h)
+    require(sim.event_queue.empty() and sim.iteration == m.end, "json_built_run_ends", lambda: "loaded simulator: iteration %r, model end %r" % (sim.iteration, m.end))
+    ids = list(sim.network.station_ids)
+    require(ids == m.station_ids, "json_built_station_order", lambda: "loaded simulator stations %r, registered %r" % (ids, m.station_ids))
+    for sid in ids:
+        require(sim.network.get_ev(sid) is None, "json_built_stations_vacated", lambda: "loaded simulator: station %s still occupied" % sid)
+    got = sorted((e.event_type, e.timestamp, e.ev.session_id if hasattr(e, "ev") else None) for e in sim.event_history)
+    want = sorted((e[2], e[0], e[3]) for e in m.events)
+    require(got == want, "json_built_each_event_exactly_once", lambda: "loaded simulator processed %r, expected %r" % (got, want))
+    keys = [(e.timestamp, RANK[e.event_type]) for e in sim.event_history]
+    require(keys == sorted(keys), "json_built_event_order", lambda: "loaded simulator event keys %r" % keys)
+    R2 = sim.charging_rates
+    require(R2.shape == R.shape and np.array_equal(R2, R), "json_built_rates_differ", lambda: "charging rates of the simulator built through JSON differ from the directly built one:\n%r\n%r" % (R2, R))
+    labels.add("json_built_run")
 
 
 def subchecks(tier):
